@@ -55,6 +55,14 @@ func init() {
 		Assume: []string{"a corrupted declared snap length is capped at 1 MiB by the harness, because a declared snap length licenses an allocation of that size", "allocation is measured with runtime/metrics /gc/heap/allocs:bytes around each call in a single-goroutine child", "after a non-EOF error the harness keeps calling (up to 3 consecutive errors, 64 calls)"}}
 }
 
+func init() {
+	props["C16"] = PropDef{Level: "exploration", QuickS: 45, ThoroughS: 600,
+		Units: []Unit{{Name: "pktsrc", Pkg: "./props/pktsrc", Sim: "c16", Share: 1}},
+		Rule: "one evaluation = one run inside a testing/synctest bubble: a scripted data source (packets with capture info, timeouts, other transient errors, one of seven end-of-input errors, plain or wrapped; copying or buffer-reusing zero-copy), a consumer (pull or channel interface), a canceller and the clock are released one at a time by the tape-driven controller, which waits for the whole bubble (PacketSource's own goroutine included) to block durably after every step; non-trivial = a transient/terminal error or a cancellation fired; distinct = distinct event-log fingerprints among non-trivial runs",
+		RealStub: "real: gopacket.PacketSource (NextPacket, PacketsCtx, its background goroutine, channel, time.Sleep, context), NewPacket with DecodePayload; stub: data source, consumer, canceller; clock: synctest fake clock",
+		Assume: []string{"Go's select among ready cases is not owned: the one packet whose read was in progress at cancellation may or may not be delivered, both are accepted", "the 1000-slot channel is never filled (runs have at most 300 steps)"}}
+}
+
 var probeNames = map[string][]string{
 	"c09":     {"stream_crosses_wrap", "wrap_inside_delivery", "flush_forced_skip", "limit_forced_skip", "syn_overtaken_by_data", "gap_announced", "delivery_without_start", "kept_bytes_presented", "multi_page_with_saved"},
 	"c11r":    {"flush_forced_skip", "limit_forced_skip"},
